@@ -511,6 +511,126 @@ pub async fn resumed_scenario(cycles: usize, early: bool) -> (Vec<(String, Strin
     (fails, trace_to_strings(&c.peer.trace), None)
 }
 
+/// Credit accounting across a detach + resume.  Before the detach the receiver grants `g` credits and the
+/// sender uses `k <= g` of them.  The link is detached (not closed) and resumed.  The receiver is a fresh
+/// link endpoint that knows only what the new attach says: it takes the sender's delivery-count from the
+/// attach's initial-delivery-count and has issued no credit on this attachment yet (AMQP 2.6.7: link-credit
+/// is initialised to zero when a link endpoint is created).  Judged in the statement's words:
+///  (a) a send issued before any flow on the new attachment transmits nothing ("never transmits more
+///      deliveries than the receiver's latest flow allows" - there is none, the allowance is zero);
+///  (b) after a flow granting `n` credits counted from the attach's initial-delivery-count exactly the
+///      waiting sends that fit are transmitted and complete ("a send that is waiting for credit completes as
+///      soon as sufficient credit has been granted") and no more than `n`.
+pub async fn resumed_accounting_scenario(g: u32, k: u32, n: u32) -> (Vec<(String, String)>, Vec<String>, Option<String>) {
+    let mut fails = vec![];
+    let mut auto = Auto::default();
+    auto.max_frame_size = 512;
+    auto.accept_transfers = true;
+    auto.incoming_window = 100_000;
+    let mut c = match scen::open_client(auto, 512).await {
+        Ok(c) => c,
+        Err(e) => return (fails, vec![], Some(e)),
+    };
+    let mut session = match scen::begin(&mut c, Session::builder()).await {
+        Ok(s) => s,
+        Err(e) => return (fails, vec![], Some(e)),
+    };
+    let mut sender = match drive(&mut c.peer, Sender::builder().name("s1").target("q").sender_settle_mode(SenderSettleMode::Settled).attach(&mut session), scen::H).await {
+        Some(Ok(s)) => s,
+        _ => return (fails, vec![], Some("attach failed".into())),
+    };
+    let lib_handle = c.peer.links.last().map(|l| l.lib_handle).unwrap_or(0);
+    c.peer.grant(0, lib_handle, g);
+    settle(&mut c.peer, 1).await;
+    for i in 0..k {
+        match drive(&mut c.peer, sender.send(format!("before-{i}")), scen::H).await {
+            Some(Ok(_)) => {}
+            _ => return (fails, trace_to_strings(&c.peer.trace), Some("resumed accounting: a send within credit did not complete".into())),
+        }
+    }
+    let det = match drive(&mut c.peer, sender.detach(), scen::H).await {
+        Some(Ok(d)) => d,
+        _ => return (fails, trace_to_strings(&c.peer.trace), Some("resumed accounting: detach failed".into())),
+    };
+    let attach_from = c.peer.trace.len();
+    let sender = match drive(&mut c.peer, det.resume(), scen::H).await {
+        Some(Ok(s)) => s,
+        _ => return (fails, trace_to_strings(&c.peer.trace), Some("resumed accounting: resume failed".into())),
+    };
+    // what the new attach tells a receiver about the sender's delivery-count
+    let idc = c.peer.trace[attach_from..].iter().rev().find_map(|w| match (&w.dir, w.perf()) {
+        (Dirn::FromLib, Some(Performative::Attach(a))) => Some(a.initial_delivery_count.unwrap_or(0)),
+        _ => None,
+    });
+    let idc = match idc {
+        Some(x) => x,
+        None => return (fails, trace_to_strings(&c.peer.trace), Some("resumed accounting: no attach seen on resume".into())),
+    };
+    let (lib_handle2, our_handle2) = c.peer.links.iter().rev().find(|l| !l.detached).map(|l| (l.lib_handle, l.our_handle)).unwrap_or((lib_handle, 0));
+    // transfers on the new attachment only (the handle number may be the same as before)
+    let started_since = |c: &scen::Client| deliveries_started(&c.peer.trace[attach_from..], lib_handle2).0;
+    let (tx, log, _task) = scen::spawn_sender_task(sender);
+    let waiting = n + 1;
+    for _ in 0..waiting {
+        let _ = tx.send(SendCmd::Send { body_len: 20 });
+    }
+    settle(&mut c.peer, 3).await;
+    let before_flow = started_since(&c);
+    if before_flow > 0 {
+        fails.push((
+            "transfer-without-credit (resumed link)".to_string(),
+            format!("before the detach the receiver had granted {g} credit(s) of which {k} were used; after detach + resume, with no flow on the new attachment, the sender transmitted {before_flow} delivery(ies)"),
+        ));
+    }
+    let mut f = c.peer.flow_for(0);
+    f.handle = Some(Handle(our_handle2));
+    f.delivery_count = Some(idc.wrapping_add(before_flow as u32));
+    f.link_credit = Some(n);
+    c.peer.send(0, Performative::Flow(f));
+    settle(&mut c.peer, 4).await;
+    let after = started_since(&c) - before_flow;
+    let done = log.lock().unwrap().done.len();
+    if after > n as usize {
+        fails.push((
+            "credit-exceeded (resumed link)".to_string(),
+            format!("resumed link (g={g}, k={k}): the new attach announced initial-delivery-count {idc}; the receiver granted {n} credit(s) from there and the sender started {after} deliveries"),
+        ));
+    }
+    if before_flow == 0 && (after < n as usize || done < n as usize) {
+        fails.push((
+            "blocked-send-not-woken (resumed link accounting)".to_string(),
+            format!("resumed link (g={g}, k={k}): the new attach announced initial-delivery-count {idc}; {waiting} sends were waiting when the receiver granted {n} credit(s) counted from that value: {after} deliveries started, {done} sends completed"),
+        ));
+    }
+    let _ = tx.send(SendCmd::Stop);
+    (fails, trace_to_strings(&c.peer.trace), None)
+}
+
+fn run_resumed_accounting(out: &mut Outcome) -> u64 {
+    let mut cnt = 0;
+    for g in 1..=3u32 {
+        for k in 0..=g {
+            for n in 1..=2u32 {
+                let scen: Scenario<(Vec<(String, String)>, Vec<String>, Option<String>)> = Arc::new(move || Box::pin(resumed_accounting_scenario(g, k, n)));
+                let ex = run_exec(vec![], &RunCfg::none(), &scen);
+                cnt += 1;
+                match ex.out {
+                    Some((fails, trace, mach)) => {
+                        if let Some(m) = mach {
+                            out.machinery_errors.push(m);
+                        }
+                        for (s, d) in fails {
+                            out.violation(s, d, json!({"kind": "resumed-accounting", "g": g, "k": k, "n": n, "trace": trace}));
+                        }
+                    }
+                    None => out.machinery_errors.push(format!("resumed accounting g={g} k={k} n={n} died: {:?}", ex.panics)),
+                }
+            }
+        }
+    }
+    cnt
+}
+
 fn run_resumed(out: &mut Outcome) -> u64 {
     let mut n = 0;
     for cycles in 1..=2usize {
@@ -635,7 +755,7 @@ pub fn run(ctx: &Ctx) -> Outcome {
     }
     let sched = schedule_wakeup(ctx, deadline, &mut out);
     let parked = run_parked(&mut out);
-    let resumed = run_resumed(&mut out);
+    let resumed = run_resumed(&mut out) + run_resumed_accounting(&mut out);
     out.set("resumed_link_scenarios", resumed);
     out.set("parked_delivery_scenarios", parked);
     out.set("states", states.max(1));
@@ -747,6 +867,32 @@ fn replay(p: &std::path::Path, mut out: Outcome) -> Outcome {
         for (s, d) in o.fails {
             println!("  FAIL {s}: {d}");
             out.violation(s, d, r.clone());
+        }
+    } else if r["kind"] == "resumed-accounting" {
+        let (g, k, n) = (r["g"].as_u64().unwrap_or(1) as u32, r["k"].as_u64().unwrap_or(0) as u32, r["n"].as_u64().unwrap_or(1) as u32);
+        let scen: Scenario<(Vec<(String, String)>, Vec<String>, Option<String>)> = Arc::new(move || Box::pin(resumed_accounting_scenario(g, k, n)));
+        let ex = run_exec(vec![], &RunCfg::none(), &scen);
+        if let Some((fails, trace, _)) = ex.out {
+            for l in &trace {
+                println!("  {l}");
+            }
+            for (s, d) in fails {
+                println!("  FAIL {s}: {d}");
+                out.violation(s, d, r.clone());
+            }
+        }
+    } else if r["kind"] == "resumed" {
+        let (cycles, early) = (r["cycles"].as_u64().unwrap_or(1) as usize, r["early"].as_bool().unwrap_or(true));
+        let scen: Scenario<(Vec<(String, String)>, Vec<String>, Option<String>)> = Arc::new(move || Box::pin(resumed_scenario(cycles, early)));
+        let ex = run_exec(vec![], &RunCfg::none(), &scen);
+        if let Some((fails, trace, _)) = ex.out {
+            for l in &trace {
+                println!("  {l}");
+            }
+            for (s, d) in fails {
+                println!("  FAIL {s}: {d}");
+                out.violation(s, d, r.clone());
+            }
         }
     } else {
         println!("schedule replay: re-running the wake-up exploration (quick bounds)");
